@@ -14,7 +14,7 @@ macro_rules! c07_common {
             use super::*;
             #[kani::proof]
             #[kani::unwind(12)]
-            fn put() {
+            pub fn put() {
                 let mut buf: [u8; 11] = kani::any();
                 let w0 = window88(&buf);
                 let off: usize = kani::any();
@@ -31,7 +31,7 @@ macro_rules! c07_common {
             }
             #[kani::proof]
             #[kani::unwind(12)]
-            fn parse() {
+            pub fn parse() {
                 let buf: [u8; 11] = kani::any();
                 let w0 = window88(&buf);
                 let off: usize = kani::any();
@@ -51,7 +51,7 @@ macro_rules! c07_common {
             }
             #[kani::proof]
             #[kani::unwind(12)]
-            fn roundtrip() {
+            pub fn roundtrip() {
                 // every representable value written at any offset reads back (put then parse)
                 let mut buf: [u8; 11] = kani::any();
                 let off: usize = kani::any();
@@ -68,7 +68,7 @@ macro_rules! c07_common {
             }
             #[kani::proof]
             #[kani::unwind(12)]
-            fn overflow() {
+            pub fn overflow() {
                 let mut buf: [u8; 11] = kani::any();
                 let orig = buf;
                 let blen: usize = kani::any();
